@@ -47,6 +47,8 @@ pub mod extras {
         #[int_result]
         fn im_pay(&self, v: i32) -> Result<u64, std::io::Error>;
         fn im_plain(&self, v: i32) -> Result<u64, u64>;
+        // an unmarked method after a marked one, with an error type that could be int-coded: it must not be
+        fn im_after(&self, v: i32) -> Result<u64, std::io::Error>;
     }
     pub struct Irs(pub u64);
     fn ir_val(base: u64, v: i32) -> Result<u64, std::io::Error> {
@@ -66,6 +68,9 @@ pub mod extras {
     impl IrMethod for Irs {
         fn im_pay(&self, v: i32) -> Result<u64, std::io::Error> { ir_val(self.0 + 2, v) }
         fn im_plain(&self, v: i32) -> Result<u64, u64> { if v % 2 == 0 { Ok(self.0 + 7) } else { Err(v as u32 as u64) } }
+        fn im_after(&self, v: i32) -> Result<u64, std::io::Error> {
+            if v % 2 == 0 { Ok(self.0 + 8) } else { Err(std::io::Error::new(std::io::ErrorKind::InvalidData, "not an OS error")) }
+        }
     }
     fn show<T: std::fmt::Debug>(r: Result<T, std::io::Error>) -> String {
         format!("{:?}", r.map_err(|e| e.raw_os_error()))
@@ -217,6 +222,8 @@ pub mod extras {
                 same_ir(rep, "no_int_result under int_result(alias)", format!("{:?}", d.ia_plain(v)), format!("{:?}", obj.ia_plain(v)));
                 same_ir(rep, "method-level int_result", show(d.im_pay(v)), show(objm.im_pay(v)));
                 same_ir(rep, "plain result next to a method-level int_result", format!("{:?}", d.im_plain(v)), format!("{:?}", objm.im_plain(v)));
+                same_ir(rep, "io::Error result after a method-level int_result (kind must survive: not int-coded)",
+                        format!("{:?}", d.im_after(v).map_err(|e| (e.kind(), e.raw_os_error()))), format!("{:?}", objm.im_after(v).map_err(|e| (e.kind(), e.raw_os_error()))));
             }
         }
         // wrapped owned child with its own state; the parent stays usable
